@@ -400,7 +400,7 @@ Section F.
     end.
   Definition is_reader_label (l : alabel) : bool :=
     match l with
-    | EFrame _ | IReadFail | IRSendOk | IRSendFail | IRBegin | IRSpawn | IRStop | IRReturn => true
+    | EFrame _ | IReadFail | IRSendOk | IRSendFail | IRBegin | IRSpawn | IRStop | IRReturn | IRCancelled => true
     | _ => false
     end.
   Definition is_finish_label (l : alabel) : bool := match l with IWFinish | IAFinish => true | _ => false end.
@@ -413,7 +413,7 @@ Section F.
   Proof.
     intro H.
     destruct l; simpl in H; unfold on_gor in H; break_match H; injection H as <-;
-      unfold writer_done, writer_exit, with_rd, with_gs, with_wr, with_ac, with_queue in *; simpl;
+      unfold writer_done, writer_out, writer_exit, with_rd, with_gs, with_wr, with_ac, with_queue in *; simpl;
       rewrite ?bc_gs, ?bc_fin, ?bc_rd, ?bc_wr, ?fo_rd, ?fo_wr; simpl; repeat split; auto; try discriminate; try congruence;
       try (intro W; rewrite ?Heqw in W; auto; discriminate).
   Qed.
@@ -806,6 +806,7 @@ Section Refine.
                      (exists prog, rd c = RBusy (RSendOrClose :: prog) /\ rd c' = RBusy []))
     | IRBegin => exists prog, rd c = RBusy (RBegin :: prog) /\ rd c' = RBusy prog
     | IRReturn => rd c = RBusy [] /\ rd c' = RIdle
+    | IRCancelled => exists prog, rd c = RBusy (RWaitCancel :: prog)
     | _ => True
     end.
   Proof.
@@ -826,6 +827,8 @@ Section Refine.
     - exact D'.
   Qed.
 
+  Lemma send_kind_cases x : send_kind x = RSend \/ send_kind x = RSendOrClose.
+  Proof. unfold send_kind. destruct (fst x); auto. Qed.
   Lemma send_kind_not_begin x : send_kind x <> RBegin.
   Proof. unfold send_kind. destruct (fst x); discriminate. Qed.
 
@@ -975,6 +978,10 @@ Section Refine.
         rewrite E1 in D1. destruct D1 as (tl & Ep & Tl).
         assert (Er : y_rprog y = []) by (destruct (y_rprog y); [reflexivity|discriminate]).
         eapply L_reader; eauto; try discriminate. rewrite E2. constructor; [exact Er|exact D2|destruct D3; auto].
+      + (* IRCancelled: the read loop of the joined system never waits for a cancellation *)
+        exfalso. destruct (astep_reader _ _ _ A) as (prog & E1). rewrite E1 in D1. destruct D1 as (tl & Ep & Tl).
+        destruct (prog_head _ _ _ _ Ep Tl) as [(X & _)|(x & r & _ & X & _)]; [discriminate|].
+        destruct (send_kind_cases x); congruence.
       + (* IGCancel *)
         injection H as <-. replace (with_cfg c' y) with (with_cfg c' (with_gcalls (upd i (fun z => z) (y_gcalls y)) y)) by (rewrite upd_id, with_gcalls_same; reflexivity).
         destruct (astep_gor _ _ _ A) as (g & Hg & Ph & Cn & E).
@@ -1138,8 +1145,6 @@ Section Refine.
   Qed.
 
   (** *** the joined system can take every internal step stage 2 can: nothing blocks on the bookkeeping *)
-  Lemma send_kind_cases x : send_kind x = RSend \/ send_kind x = RSendOrClose.
-  Proof. unfold send_kind. destruct (fst x); auto. Qed.
 
   Theorem sys_progress y a c' :
     SysInv y -> internal a = true -> astep cap true (y_c y) a = Some c' -> exists y', ystep cap p y (YInt a) = Some y'.
@@ -1181,9 +1186,19 @@ Theorem sys_quiescent cap p (cap_pos : 1 <= cap) y :
     List.length ls <= mu (y_c y) /\
     ((forall a, internal a = true -> ystep cap p y' (YInt a) = None) -> all_gone (y_c y') = true /\ cleaned (y_c y')).
 Proof.
-  intros Re En ls y' Fi Ru. pose proof (yreach_inv cap p _ Re) as V. destruct V as (R & _).
+  intros Re En ls y' Fi Ru. pose proof (yreach_inv cap p _ Re) as V. destruct V as (R & _ & RI). destruct RI as [D1 D2 D3].
+  assert (Se : settling (y_c y) = true).
+  { unfold settling. rewrite En. unfold waits.
+    assert (W : match rd (y_c y) with RBusy prog => existsb is_wait prog | _ => false end = false).
+    { destruct (rd (y_c y)) as [|prog|]; try reflexivity.
+      destruct D1 as (tl & -> & Tl). rewrite existsb_app.
+      assert (X : forall l, existsb is_wait (map send_kind l) = false).
+      { induction l as [|x r IH]; [reflexivity|]. cbn [map existsb]. rewrite IH.
+        destruct (send_kind_cases x) as [E | E]; rewrite E; reflexivity. }
+      rewrite X. destruct Tl as [-> | ->]; reflexivity. }
+    rewrite W. simpl. apply orb_true_r. }
   pose proof (yrun_erases cap p _ _ _ Ru) as Ar. rewrite (erase_run_internal cap p _ _ _ Ru) in Ar.
-  destruct (quiescent cap cap_pos (y_c y) R En ls (y_c y') Fi Ar) as [A B]. split; [exact A|].
+  destruct (quiescent cap cap_pos (y_c y) R Se ls (y_c y') Fi Ar) as [A B]. split; [exact A|].
   intro St. apply B. intros a Ia. destruct (astep cap true (y_c y') a) as [c''|] eqn:E; [|reflexivity]. exfalso.
   assert (V' : SysInv cap p y') by (eapply yrun_inv; [apply (yreach_inv cap p _ Re)|exact Ru]).
   destruct (sys_progress cap p _ _ _ V' Ia E) as (y'' & X). rewrite (St a Ia) in X. discriminate.
@@ -1209,6 +1224,6 @@ Proof.
     pose proof (proj1 (Forall_forall _ _) (j_gor _ J) g Hg) as OK. unfold gor_ok in OK. rewrite M in OK. tauto.
   - intros l c' H.
     destruct l; simpl in H; unfold on_gor in H; rewrite ?RD in H; break_match H; try discriminate; injection H as <-;
-      unfold writer_exit, with_rd, with_gs, with_wr, with_ac, with_queue; simpl;
+      unfold writer_out, writer_exit, with_rd, with_gs, with_wr, with_ac, with_queue; simpl;
       rewrite ?bc_gs, ?bc_rd, ?fo_rd, ?fo_gs, ?F, ?upd_length; auto.
 Qed.
